@@ -150,10 +150,10 @@ PROPERTIES = {
     },
     "C17": {
         "level": "other",
-        "units": [("contracts.fileloop", "network_file_loop")],
+        "units": [("contracts.fileloop", "network_file_loop"), ("contracts.cfgparse", "render_plumbing")],
         "oracle": native_cfg.oracle_c17,
         "trusted_base": ["assumed contract of Network._add_reaction (C14 unit) and of open()/readlines()", "per-file state of a reaction class = KROMEReaction.reacformat/_user_commons/_user_vars (property anchors)"],
-        "contract_files": ["fileloop.py"],
+        "contract_files": ["fileloop.py", "cfgparse.py"],
         "explanation": "mixed, mostly bounded (byte identity is a hyper-property over process histories). PROVED (pyvc, files of any length, every supported format, dirty class state left by an earlier or failed load): before Network.add_reaction_from_file reads a file the network's element tables are installed when it has any, the per-file KROME directive state is back at its defaults, and every line is parsed exactly once in order. BOUNDED: three networks rendered in fresh interpreters under several PYTHONHASHSEED values, twice in one process, and after preludes that build/render other networks with different element lists, prefixes, KROME directives, user binding energies, and a KROME load that fails half-way; sha256 of include/ src/ python/ compared. KNOWN FINDINGS: networks without element tables inherit another network's tables; user binding energies are process-global.",
     },
     "C07": {
